@@ -412,6 +412,9 @@ PRED_CALLS = {
 }
 
 
+PRED_CALLS = {strip_generics(k): v for k, v in PRED_CALLS.items()}
+
+
 def switch_labels(fn, b):
     """For a SwitchInt terminator of block b: list of (target_block, label).
     label is a dict with 'kind' in {variant, cmp, pred, val, unknown}."""
